@@ -303,6 +303,15 @@ fn durable_dump(ex: &Exec) -> Dump {
     dump_of(ex, &ex.model)
 }
 
+thread_local! {
+    /// C20 stage: also demand that a recovered image holds no unreferenced table/blob/version file
+    static RECLAIM: std::cell::Cell<bool> = const { std::cell::Cell::new(false) };
+}
+
+pub fn set_reclaim_check(on: bool) {
+    RECLAIM.with(|c| c.set(on));
+}
+
 /// Open the image and dump it: per pool key (value, seqno), plus the scan.
 fn open_and_dump(case: &Case, dir: &Path) -> Result<Vec<Option<(Vec<u8>, u64)>>, String> {
     let shared = crate::cfg::Shared::from_spec(&case.cfgs[0]);
@@ -315,6 +324,10 @@ fn open_and_dump(case: &Case, dir: &Path) -> Result<Vec<Option<(Vec<u8>, u64)>>,
         None,
     );
     let t = cfg.open().map_err(|e| format!("Config::open failed: {e:?}"))?;
+    if RECLAIM.with(|c| c.get()) {
+        crate::audit::reclamation_of(dir, &t, "[C20] right after opening a crash image")
+            .map_err(|e| format!("[C20] {e}"))?;
+    }
     let mut out = vec![];
     for k in &case.keys {
         let v = t
